@@ -41,6 +41,9 @@ def spec_of(case):
     return s
 
 
+MARGIN = [0.0]
+
+
 def compare(viol, sig, what, obs, ref_grid, ref_an, scale):
     obs = numpy.asarray(obs)
     if numpy.iscomplexobj(obs):
@@ -54,6 +57,7 @@ def compare(viol, sig, what, obs, ref_grid, ref_an, scale):
         return
     tol = RTOL * (numpy.abs(ref_grid) + scale) + 2.0 * numpy.abs(ref_grid - ref_an)
     err_g, err_a = numpy.abs(obs - ref_grid), numpy.abs(obs - ref_an)
+    MARGIN[0] = max(MARGIN[0], float((numpy.minimum(err_g, err_a) / tol).max()))
     bad = ~((err_g <= tol) | (err_a <= tol))
     if bad.any():
         idx = tuple(int(i) for i in numpy.argwhere(bad)[0])
@@ -64,6 +68,7 @@ def run_case(case):
     from mc.ref import pipeline_ref as P
     spec = spec_of(case)
     viol = []
+    MARGIN[0] = 0.0
     with K.scratch() as d, K.scratch() as elsewhere:
         ds, st = synth.write(d, spec)
         if case.get("cwd") == "decoy-inputs":
@@ -117,7 +122,8 @@ def run_case(case):
                         viol.append(V("c05:phonon-depends-on-static", f"c{p[0]}{p[1]}: total - static changes by {float(numpy.abs(ph1 - ph2).max())!r} when the static table is scaled by 1.37"))
                         break
     nshear = sum(1 for p in want if p[1] >= 4)
-    return {"viol": viol, "nontrivial": True, "outcome": f"ok/{len(want)}keys/{nshear}shear" if not viol else viol[0]["sig"]}
+    return {"viol": viol, "nontrivial": True, "outcome": f"ok/{len(want)}keys/{nshear}shear" if not viol else viol[0]["sig"],
+            "margin": MARGIN[0]}
 
 
 def canon(case):
@@ -154,7 +160,8 @@ def explore(ctx):
         cases.append(c)
     ctx.exhaustive = False
     ctx.notes["lattice"] = {"dims": {k: len(v) for k, v in dims.items()}, "bound": bound, "configs": len(cases)}
-    ctx.run(MOD, "run_case", cases, part=f"lattice<={bound}", transitions=edges, chunksize=2)
+    res = ctx.run(MOD, "run_case", cases, part=f"lattice<={bound}", transitions=edges, chunksize=2)
+    ctx.notes["worst_error_over_tolerance"] = max([r.get("margin", 0.0) for r in res] or [0.0])
 
 
 def selftest():
